@@ -268,6 +268,18 @@ NUMERIC_TRAPS = [
          cm={"cat": "RAT-FUNC", "scales": [{"num": [100], "den": [0, 1]}]}),
     dict(cmname="trap-ratfunc-pole-float", dt="A_FLOAT32", enc=None, bl=32, bitpos=0, hl=True, bytepos=None, ptype="A_FLOAT64",
          cm={"cat": "RAT-FUNC", "scales": [{"num": [1], "den": [0, 1]}]}),
+    # a text table with a default for the *encoding* direction only (COMPU-PHYS-TO-INTERNAL /
+    # COMPU-DEFAULT-VALUE): coded values outside all scales have no text and must be rejected
+    dict(cmname="trap-texttable-inv-default", dt="A_UINT32", enc=None, bl=8, bitpos=0, hl=True,
+         bytepos=None, ptype="A_UNICODE2STRING",
+         cm={"cat": "TEXTTABLE", "inv_default": 1,
+             "scales": [{"lo": 0, "hi": 0, "const": "off"}, {"lo": 1, "hi": 1, "const": "on"},
+                        {"lo": 4, "hi": 9, "const": "range"}]}),
+    dict(cmname="trap-texttable-inv-default-12", dt="A_UINT32", enc=None, bl=12, bitpos=3, hl=False,
+         bytepos=None, ptype="A_UNICODE2STRING", via_xml=True,
+         cm={"cat": "TEXTTABLE", "inv_default": 1,
+             "scales": [{"lo": 0, "hi": 0, "const": "off"}, {"lo": 1, "hi": 1, "const": "on"},
+                        {"lo": 4, "hi": 9, "const": "range"}]}),
 ]
 
 
@@ -285,7 +297,7 @@ def configs(tier, seed):
                 out.append(dict(base, id=f"layers/{name}/len{n}/other", not_first=firsts))
             else:
                 out.append(dict(base, id=f"layers/{name}/len{n}"))
-    for what, table in (("request", {**_cp.COMPOSITES, "table-empty-row": _cp.EXTRA_REQUESTS["table-empty-row"]}),
+    for what, table in (("request", {**_cp.COMPOSITES, **{k: _cp.EXTRA_REQUESTS[k] for k in ("table-empty-row", "const-bytefield", "const-string")}}),
                         ("response", {**_cp.RESPONSES, **_cp.DECODE_ONLY_RESPONSES})):
         for name in table:
             for n in range(0, (7 if tier == "quick" else 10)):
